@@ -138,6 +138,15 @@ def rand_fields(r, level=None):
                 if symlink:
                     exts.append("U%d.-" % 0o120777)
                     exts.append("N" + hx(name_bytes(r, 8, "mixed").replace(b"|", b"_") + b"|" + name_bytes(r, 9, "mixed")))
+                if r.random() < 0.12:
+                    # a level-1 extended-header CHAIN longer than 64 KiB (each header is limited to 65535 bytes, the chain is not):
+                    # the skip size is a 32-bit sum
+                    for _ in range(r.choice([2, 2, 3])):
+                        exts.insert(r.randrange(len(exts) + 1), "O%d.%s" % (r.choice([0x3f, 0x7e, 0x40]),
+                                                                              hx(bytes([r.randrange(256)]) * r.choice([30000, 32766, 32768, 40000, 65000]))))
+                    tags.add("chain>=64K")
+                    # the skip-size field (data + chain) is 32 bits: keep the data size small enough for the sum to fit
+                    items = [("c%d" % r.choice([0, 5, 1000, 2 ** 31])) if it.startswith("c") else it for it in items]
                 items.append("X" + "|".join(exts))
                 tags.add("exts=%d" % min(len(exts), 6))
         items.append("n" + hx(nm))
